@@ -116,6 +116,11 @@ def networks(draw, max_buses=10, allow_islands=False, allow_bus_off=False, dense
             k += 1
             p = _r(draw(st.floats(0.0, 0.6)) * scale)
             q = _r(p * draw(st.floats(-0.2, 0.5)))
+            shape = draw(st.integers(0, 9))
+            if shape == 0:        # purely reactive load (compensation modelled as a load)
+                p, q = 0.0, _r(draw(st.floats(-0.2, 0.3)) * scale)
+            elif shape == 1:      # purely active load
+                q = 0.0
             u = 0 if (offline and draw(st.integers(0, 7)) == 0) else 1
             pqs.append(dict(idx=mkidx('PQ', k), bus=bidx[pos], Vn=kv[bidx[pos]], p0=p, q0=q,
                             vmin=0.8, vmax=1.2, u=u))
@@ -169,6 +174,8 @@ def features(case):
         per_bus[str(pq['bus'])] = per_bus.get(str(pq['bus']), 0) + 1
         if not pq['u']:
             f.add('offline_load')
+        if pq['p0'] == 0 and pq['q0'] != 0:
+            f.add('reactive_only_load')
     if any(v > 1 for v in per_bus.values()):
         f.add('multi_load_bus')
     if any(not g['u'] for g in case['pvs'] + case['slacks']):
